@@ -17,6 +17,8 @@ LAYOUTS = {
     "nest": ["A", None, "AB", "|", "BA", "A", None],
     # label values that differ only in type (int 1 vs str "1")
     "types": ["i1", "s1", "i1", None, "s1", "i1"],
+    # two child lists (x, y) next to the root list's own shards
+    "nest2": ["A", None, "|", "B", "A", "A", "|", None, "B", "B"],
 }
 ACCEPTS = {
     "sync": {"shards", "limit", "filter"},
@@ -58,10 +60,11 @@ def build(root, fmt: str, layout: list):
             sessions[-1].append(g)
     for si, groups in enumerate(sessions):
         filler = ds_.filler() if si == 0 else DatasetFiller(
-            ds_, relative_path_from_split=Path("x"))
+            ds_, relative_path_from_split=Path("xyzw"[min(si - 1, 3)]))
         with filler as f:
             for i, g in enumerate(groups):
-                n = 1 if i == len(groups) - 1 else 2
+                n = 1 if (i == len(groups) - 1 and "nest2" not in str(
+                    layout[:0]) and len(sessions) < 3) else 2
                 members = []
                 for _ in range(n):
                     f.write_example(values=D.example((0, 0, q)),
@@ -128,9 +131,19 @@ def case(args) -> dict:
 
         listed = [(gname(s.custom_metadata), s.number_of_examples)
                   for s in ds_.shard_info_iterator("train")]
-        if listed != [(g, len(m)) for g, m in shards_true]:
+        if sorted(listed, key=repr) != sorted(
+                [(g, len(m)) for g, m in shards_true], key=repr):
             out["harness"] = f"layout not realised: {listed}"
             return out
+        # ground truth in LISTING order (the order of child lists across
+        # sessions is not what this property is about): group from the
+        # recorded metadata, members by decoding every shard file directly
+        shards_true = [
+            (gname(s.custom_metadata),
+             D.decode_shard(ds_.dataset_structure,
+                            ds_.path / s.file_infos[0].file_path))
+            for s in ds_.shard_info_iterator("train")
+        ]
         S = len(shards_true)
         ifaces = [i for i in ("sync", "concurrent", "async", "rust", "tf")
                   if not (i == "async" and fmt == "tfrec") and
@@ -208,7 +221,8 @@ def run(ctx):
     from vf import rustbuild
     rustbuild.ensure_ext()
     tasks = [("fb", "g6"), ("fb", "g5"), ("npz", "g6"), ("tfrec", "g5"),
-             ("fb", "one"), ("fb", "nest"), ("npz", "nest"), ("fb", "types")]
+             ("fb", "one"), ("fb", "nest"), ("npz", "nest"), ("fb", "types"),
+             ("fb", "nest2"), ("tfrec", "nest2")]
     if ctx.tier == "thorough":
         tasks += [("npz", "g5"), ("tfrec", "g6"), ("npz", "one"),
                   ("tfrec", "one")]
